@@ -384,32 +384,6 @@ def translate_plan(cls, formulas, path):
             items.append("LMI %s %s" % (lname, dn))
             i += 5
             continue
-        # LinearOperator cross loop
-        if isinstance(stmt, ast.For) and isinstance(stmt.target, ast.Name) and not stmt.orelse:
-            l1 = list_ref(stmt.iter, path)
-            if l1 != "LPoints" or len(stmt.body) != 2:
-                raise Untranslatable(stmt, "unsupported loop", path)
-            n1 = unpack3(stmt.body[0], stmt.target.id, path)
-            inner = stmt.body[1]
-            if not (isinstance(inner, ast.For) and isinstance(inner.target, ast.Name) and not inner.orelse
-                    and list_ref(inner.iter, path) == "LTPoints" and len(inner.body) == 2):
-                raise Untranslatable(inner, "unsupported inner loop", path)
-            n2 = unpack3(inner.body[0], inner.target.id, path)
-            app = inner.body[1]
-            if not (isinstance(app, ast.Expr) and isinstance(app.value, ast.Call)
-                    and isinstance(app.value.func, ast.Attribute) and app.value.func.attr == "append"
-                    and is_self_attr(app.value.func.value, "list_of_class_constraints") and len(app.value.args) == 1):
-                raise Untranslatable(app, "expected self.list_of_class_constraints.append(<comparison>)", path)
-            env = positional_env(n1, True)
-            env.update(positional_env(n2, False))
-            s, t = Tr(env, path).tr(app.value.args[0])
-            if s != "C":
-                raise Untranslatable(app, "appended object is not a comparison", path)
-            dn = "cross_%s" % cname
-            extra_defs.append((dn, "cterm", t))
-            items.append("CrossEq %s" % dn)
-            i += 1
-            continue
         raise Untranslatable(stmt, "statement outside the plan grammar", path)
     return items, extra_defs
 
@@ -633,11 +607,13 @@ def translate_block_smooth(cls, path):
     if not point_id_stmts(inner.body[1:3], n2[0], "xj_id", jv):
         raise Untranslatable(inner.body[1], "expected xj_id = xj.get_name() / Point_{j}", path)
     cond = inner.body[3]
+    # the skip test is the identity of the two triplet objects (`is`), as in the generic generators; tuple
+    # equality (`==`, which compares the function values with the overloaded Expression.__eq__) is refused
     if not (isinstance(cond, ast.If) and isinstance(cond.test, ast.Compare) and len(cond.test.ops) == 1
-            and isinstance(cond.test.ops[0], ast.Eq) and isinstance(cond.test.left, ast.Name)
+            and isinstance(cond.test.ops[0], ast.Is) and isinstance(cond.test.left, ast.Name)
             and cond.test.left.id == pv and isinstance(cond.test.comparators[0], ast.Name)
             and cond.test.comparators[0].id == qv and cond.orelse):
-        raise Untranslatable(cond, "expected  if point_i == point_j: ... else: ...", path)
+        raise Untranslatable(cond, "expected  if point_i is point_j: ... else: ...", path)
     # then-branch: for k in range(nb): tables[k][i].append(0)
     if not (len(cond.body) == 1 and range_blocks(cond.body[0]) and len(cond.body[0].body) == 1
             and table_append(cond.body[0].body[0], cond.body[0].target.id, iv, 0)):
